@@ -124,26 +124,47 @@ harness! {
 }
 
 harness! {
-    // bound: coords_within_epsilon D=2 over UNRESTRICTED doubles: symmetric; false when a coordinate difference is NaN; strict (false at exactly epsilon on an axis-aligned pair)
-    #[kani::unwind(5)]
-    fn c09_within_epsilon_laws_2d() {
-        let a: [f64; 2] = [kani::any(), kani::any()];
-        let b: [f64; 2] = [kani::any(), kani::any()];
+    // bound: coords_within_epsilon D=1 over UNRESTRICTED doubles: NaN never within; distance exactly epsilon is not a duplicate (strict <); identical finite coordinates are within any epsilon with eps^2 > 0
+    #[kani::unwind(4)]
+    fn c09_within_epsilon_nan_strict_1d() {
+        let a: f64 = kani::any();
+        let b: f64 = kani::any();
         let eps: f64 = kani::any();
-        let ab = dhooks::coords_within_epsilon(&a, &b, eps);
-        let ba = dhooks::coords_within_epsilon(&b, &a, eps);
-        assert!(ab == ba, "within-epsilon is symmetric");
-        if a[0].is_nan() || b[1].is_nan() || eps.is_nan() {
+        let ab = dhooks::coords_within_epsilon(&[a], &[b], eps);
+        if a.is_nan() || b.is_nan() || eps.is_nan() {
             assert!(!ab, "NaN is never within epsilon of anything");
         }
-        if a[1] == b[1] && a[1].is_finite() && a[0].is_finite() && b[0].is_finite() && (a[0] - b[0]).abs() == eps {
+        if a.is_finite() && b.is_finite() && (a - b).abs() == eps {
             assert!(!ab, "distance exactly epsilon is not a duplicate (strict <)");
         }
-        if eps > 0.0 && eps.is_finite() && a[0] == b[0] && a[1] == b[1] && a[0].is_finite() && a[1].is_finite() && eps * eps > 0.0 {
-            assert!(ab, "identical finite coordinates are within any positive epsilon");
+        if a == b && a.is_finite() && eps.is_finite() && eps * eps > 0.0 {
+            assert!(ab, "identical finite coordinates are within any epsilon whose square is positive");
         }
         kani::cover!(ab, "within reached");
-        kani::cover!(!ab && !a[0].is_nan() && !a[1].is_nan() && !b[0].is_nan() && !b[1].is_nan(), "finite not-within reached");
+        kani::cover!(!ab && a.is_finite() && b.is_finite() && eps > 0.0, "finite not-within reached");
+        kani::cover!(a.is_finite() && b.is_finite() && (a - b).abs() == eps && eps > 0.0, "exactly epsilon apart reached");
+    }
+}
+
+harness! {
+    // bound: coords_within_epsilon D=2 on the grid [-4,4]^2 x [-4,4]^2 with eps = n/4, n in 1..=24: symmetric and equal to the exact integer comparison 16*dist^2 < n^2
+    #[kani::unwind(5)]
+    fn c09_within_epsilon_exact_grid_2d() {
+        let a = [any_grid(4), any_grid(4)];
+        let b = [any_grid(4), any_grid(4)];
+        let n: u8 = kani::any();
+        kani::assume(n >= 1 && n <= 24);
+        let eps = f64::from(n) * 0.25;
+        let fa = [f64::from(a[0]), f64::from(a[1])];
+        let fb = [f64::from(b[0]), f64::from(b[1])];
+        let ab = dhooks::coords_within_epsilon(&fa, &fb, eps);
+        let ba = dhooks::coords_within_epsilon(&fb, &fa, eps);
+        let d2 = i64::from(a[0] - b[0]) * i64::from(a[0] - b[0]) + i64::from(a[1] - b[1]) * i64::from(a[1] - b[1]);
+        let want = 16 * d2 < i64::from(n) * i64::from(n);
+        assert!(ab == want, "within-epsilon equals the exact comparison dist^2 < eps^2");
+        assert!(ab == ba, "within-epsilon is symmetric");
+        kani::cover!(want && d2 > 0, "distinct points within epsilon reached");
+        kani::cover!(!want && 16 * d2 == i64::from(n) * i64::from(n), "distance exactly epsilon reached");
     }
 }
 
